@@ -163,7 +163,11 @@ func (p *jsonPathParser) setNodeChain() {
 
 			nextNode := next.(syntaxNode)
 
-			if multiIdentifier, ok := last.(*syntaxChildMultiIdentifier); ok {
+			linkNode := last
+			if recursiveIdentifier, ok := last.(*syntaxRecursiveChildIdentifier); ok {
+				linkNode = recursiveIdentifier.getNext()
+			}
+			if multiIdentifier, ok := linkNode.(*syntaxChildMultiIdentifier); ok {
 				for _, singleIdentifier := range multiIdentifier.identifiers {
 					singleIdentifier.setNext(nextNode)
 				}
